@@ -41,4 +41,29 @@ __CPROVER_ensures (V_WFA (x) && -(long) V_ALLOC (x) <= (long) V_SIZ (x) && (long
 __CPROVER_ensures ((V_SIZ (x) != 0 && gk == V_ABSIZ (x) - 1) ==> V_PTR (x)[V_ABSIZ (x) - 1] != 0)
 __CPROVER_ensures (__CPROVER_return_value == 0 || __CPROVER_return_value >= 4)
 ;
+
+/* mpz_out_raw_m: builds the byte image.  n = |SIZ(x)| limbs, z = (leading zero bits of the top limb)/8 leading zero bytes dropped.
+   Block of 8+8n bytes; limb k of |x| is stored byte-swapped (big endian) at offset 8 + 8(n-1-k); the image starts 4 bytes before
+   the first non-zero body byte with the big-endian two's-complement byte count. */
+#define V_OUT_N(x)  V_ABSIZ (x)
+#define V_OUT_Z(x)  (V_SIZ (x) != 0 ? (long) (__builtin_clzl (V_PTR (x)[V_ABSIZ (x) - 1]) / 8) : 0L)
+#define V_OUT_BYTES(x) (8 * V_OUT_N (x) - V_OUT_Z (x))
+void mpz_out_raw_m (mpir_out_ptr mpir_out, mpz_srcptr x)
+/* the format's 32-bit signed byte count bounds the operand: 8n < 2^31 */
+__CPROVER_requires (V_WF (x) && V_ABSIZ (x) < (1L << 28) && __CPROVER_w_ok (mpir_out, sizeof (*mpir_out)) && 0 <= gk && gk <= V_NMAX)
+__CPROVER_assigns (*mpir_out)
+__CPROVER_ensures (mpir_out->allocatedSize == (size_t) (8 + 8 * V_OUT_N (x)) && __CPROVER_is_fresh (mpir_out->allocated, 8 + 8 * V_OUT_N (x)))
+__CPROVER_ensures (mpir_out->writtenSize == (size_t) (4 + V_OUT_BYTES (x)) && mpir_out->written == mpir_out->allocated + 8 + V_OUT_Z (x) - 4)
+/* every limb below the top one is stored whole; of the top limb, the bytes after the dropped leading zero bytes (the header overlays those) */
+__CPROVER_ensures (gk < V_OUT_N (x) - 1 ==> *(mp_limb_t *) (mpir_out->allocated + 8 + 8 * (V_OUT_N (x) - 1 - gk)) == V_BS (V_PTR (x)[gk]))
+__CPROVER_ensures (V_OUT_N (x) > 0 ==> (*(mp_limb_t *) (mpir_out->allocated + 8) >> (8 * V_OUT_Z (x))) == (V_BS (V_PTR (x)[V_OUT_N (x) - (V_OUT_N (x) > 0)]) >> (8 * V_OUT_Z (x))))
+__CPROVER_ensures (V_HDR ((unsigned char *) mpir_out->written) == (V_SIZ (x) >= 0 ? V_OUT_BYTES (x) : -V_OUT_BYTES (x)))
+;
+/* mpz_out_raw: returns the number of bytes written, 0 if the write failed; the scratch block is released with its exact size on
+   both paths (allocator stubs) */
+size_t __gmpz_out_raw (FILE *fp, mpz_srcptr x)
+__CPROVER_requires (V_WF (x) && V_ABSIZ (x) < (1L << 28) && 0 <= gk && gk <= V_NMAX)
+__CPROVER_assigns ()
+__CPROVER_ensures (__CPROVER_return_value == 0 || __CPROVER_return_value == (size_t) (4 + V_OUT_BYTES (x)))
+;
 #endif
